@@ -248,9 +248,13 @@ func holdsCall(node antlr.Tree) bool {
 	if node == nil {
 		return false
 	}
-	switch node.(type) {
+	switch c := node.(type) {
 	case *parser.MethodCallContext, *parser.CreatorContext, *parser.InnerCreatorContext:
 		return true
+	case *parser.ExpressionContext:
+		if c.COLONCOLON() != nil {
+			return true // a method reference: the tool records it like a call
+		}
 	}
 	for i := 0; i < node.GetChildCount(); i++ {
 		if holdsCall(node.GetChild(i)) {
